@@ -3,10 +3,10 @@
 
   One `Op` per goroutine-visible atomic step:
 
-    add e now      Batcher.Add up to and including `batch.updateStatus()` (b.mu taken; when the batch is
+    add e t0 now   Batcher.Add up to and including `batch.updateStatus()` (b.mu taken; when the batch is
                    not ready the op also covers `b.mu.Unlock(); return`, otherwise b.mu stays held:
                    `locked = true`)
-    heartbeat now  one iteration of Batcher.heartbeat, same shape without `append`
+    heartbeat t0 now  one iteration of Batcher.heartbeat, same shape without `append`
     sealB          the rest of trySendBatchAndUnlock for a ready batch: `batch.seq = b.outSeq;
                    b.outSeq++; b.batch = nil` and `b.mu.Unlock()`; in the shape `enqueueLocked = true`
                    (send before Unlock — the repaired code) it also performs `b.fullBatches <- batch`
@@ -18,7 +18,9 @@
     commit k       the critical section of commitBatch after the `commitSeq != batchSeq` wait
     stop           the critical section of Batcher.Stop (shouldStop = true; close(fullBatches))
 
-  Time is logical: `now` is what `time.Now()` returns inside the step; `Cur.start` is the
+  Time is logical. The code reads the clock twice inside such a step: `t0` is what `time.Now()`
+  returns in `reset()` (only used when getBatch takes a batch from freeBatches), `now` is what it
+  returns in `updateStatus`; `Cur.start` is the
   `startTime` set by `reset()` in getBatch.
   Core Lean only (linked into fdmodel).
 -/
@@ -107,8 +109,8 @@ deriving Repr
 def init (c : Cfg) : State := { free := c.workers }
 
 inductive Op
-  | add (e : Ev) (now : Nat)
-  | heartbeat (now : Nat)
+  | add (e : Ev) (t0 now : Nat)
+  | heartbeat (t0 now : Nat)
   | sealB
   | enqueue (k : Nat)
   | sendStart (k : Nat)
@@ -137,17 +139,17 @@ def afterStatus (c : Cfg) (s : State) (b : Cur) (free : Nat) (now : Nat) : State
   { s with cur := some b', free := free, locked := readiness c b now != .notReady }
 
 def step? (c : Cfg) (s : State) : Op → Option State
-  | .add e now =>
+  | .add e t0 now =>
     if s.locked then none else
     if s.stopped then some s else
-    match getBatch s now with
+    match getBatch s t0 with
     | none => none
     | some (b, free) =>
       some (afterStatus c { s with added := s.added ++ [e] } (b.append e) free now)
-  | .heartbeat now =>
+  | .heartbeat t0 now =>
     if s.locked then none else
     if s.stopped then some s else
-    match getBatch s now with
+    match getBatch s t0 with
     | none => none
     | some (b, free) => some (afterStatus c s b free now)
   | .sealB =>
